@@ -85,6 +85,10 @@ CHECKS = {
    technique="fuzzing-style property-based testing (proptest) with process isolation: byte streams and structured commands with extreme arguments executed in child worker processes; oracles: process survival, panic log, counting-allocator memory bound, bounded completion time, liveness of a second connection",
    text="Inputs are run in child processes of the harness (an abort, stack overflow or refused giant allocation is an observation). Byte streams with hostile length prefixes, nesting to depth 200000, truncations and raw bytes; well-formed commands of every family the executor special-cases with arguments from {missing, empty, non-UTF-8, 0, -1, 2^62, 2^63-1, 2^64-1, 2^64, long digits, keywords, long strings}, before and after metadata is set, compression on/off. No death, no panic on any thread, peak memory <= 16 MiB + 4096 x bytes received, completion within 8 s wall (triple-confirmed) / 3600 virtual s, a second connection keeps being served.",
    note="The session is driven in-process through the real decoder, Session::handle_cmd/handle_slowlog and ForwardHandler (the TCP accept loop is not in the loop). This is the only check where a wall-clock limit is part of the oracle. Build profile: debug assertions and overflow checks ON for undermoon."),
+ "C11": dict(engine="sched", category="fault_enumeration", design="DESIGN.md §3 C11",
+   technique="schedule exploration with a deterministic cooperative scheduler (generated schedules via proptest + bounded exhaustive enumeration of schedule prefixes) over the real blocking queue; invariant over the logically time-stamped event log",
+   text="The real BlockingMap/TaskBlockingQueue/BlockingHandle run on real OS threads (1..3 senders, 1..2 controllers, a completer) of which exactly one is runnable at a time; context switches happen only at the scheduling points hook H3 places before every shared-memory access of proxy/blocking.rs. Generated byte-vector schedules plus every schedule prefix of length 7 (quick) / 9 (thorough) for 2 senders x 1 controller. No command is handed to the source Redis while a controller has observed blocking_done and not yet lifted blocking; every command ends in exactly one outcome; at quiescence nothing is queued and no command is counted as running.",
+   note="Sequentially consistent interleavings only (the atomics are SeqCst); crossbeam channel internals are trusted; an access the hooks miss is not pre-empted; the exhaustive part is exhaustive only up to the stated prefix length."),
 }
 
 NOT_YET = {}
@@ -123,6 +127,7 @@ def main():
         "engines": [
             {"name": "brokersim", "path": "harness/src/engines/brokersim.rs", "serves_properties": ["C01","C04","C06","C10","C12","C13","C18","C17"], "kind_free_text": "proptest-generated operation histories against the real MemBrokerService, oracles over the served JSON views after every step"},
             {"name": "codec", "path": "harness/src/engines/codec.rs", "serves_properties": ["C15","C17","C09","C19"], "kind_free_text": "pure functions: RESP value model, reference encoder, strict reference recognizer; reference decoders for control-plane messages"},
+            {"name": "sched", "path": "harness/src/engines/sched.rs", "serves_properties": ["C11"], "kind_free_text": "deterministic cooperative scheduler: real OS threads, one runnable at a time, switches only at cfg(feature=verif) scheduling points (hook H3); schedules are generated byte vectors or enumerated prefixes"},
             {"name": "conn", "path": "harness/src/engines/conn.rs", "serves_properties": ["C08"], "kind_free_text": "scripted backend behind the ConnFactory seam: the real RESP codec over an in-memory duplex byte stream; fragmentation, coalescing, latency, stalls and cuts from a generated plan"},
             {"name": "proxysim", "path": "harness/src/engines/world.rs", "serves_properties": ["C05","C09","C20","C14","C02","C03","C19","C07"], "kind_free_text": "in-process world: real proxies (SharedForwardHandler), stateful Redis stand-ins and a fake network implementing ConnFactory/RedisClientFactory on a paused-clock single-thread runtime; message delays/holds/faults decided by the generated schedule"},
         ],
